@@ -116,9 +116,29 @@ def wellformed_problems(tree, data_idxs):
     return wellformed(tree, data_idxs)
 
 
+_SWARM_SPY = {"installed": False, "last": None}
+
+
+def install_swarm_spy():
+    """Records the final swarm the particle-Gibbs samplers select from (class-level wrapper; the samplers use __slots__)."""
+    if _SWARM_SPY["installed"]:
+        return
+    _SWARM_SPY["installed"] = True
+    from phyclone.mcmc.particle_gibbs import ParticleGibbsTreeSampler
+
+    orig = ParticleGibbsTreeSampler._sample_tree_from_swarm
+
+    def spy(self, swarm):
+        _SWARM_SPY["last"] = (len(swarm.particles), self.num_particles, swarm.particles[0] if swarm.particles else None)
+        return orig(self, swarm)
+
+    ParticleGibbsTreeSampler._sample_tree_from_swarm = spy
+
+
 def compute_row(root):
     """All executions of the move from one start state -> exact row of the transition matrix."""
     cfg, si = root
+    install_swarm_spy()
     data = config_data(cfg)
     states = config_states(cfg)
     s = states[si]
@@ -138,6 +158,13 @@ def compute_row(root):
         wf = wellformed_problems(new, idxs)
         if wf:
             return ("MALFORMED", "; ".join(wf)[:300])
+        if cfg["move"] in ("pg", "subtree") and _SWARM_SPY["last"] is not None:
+            n_part, n_want, first = _SWARM_SPY["last"]
+            _SWARM_SPY["last"] = None
+            if n_part != n_want:
+                return ("SWARM", "final swarm holds %d particles, the sampler was asked for %d" % (n_part, n_want))
+            if first is None or oracle.abstract(first.tree) != s:
+                return ("SWARM", "slot 0 of the final swarm is not the retained input tree")
         return ("OK", oracle.abstract(new))
 
     row = {}
@@ -157,6 +184,8 @@ def compute_row(root):
                 if len(problems) < 3:
                     problems.append({"kind": res[0], "what": res[1], "choices": choices, "prob": p})
                 row[res] = row.get(res, 0.0) + p
+                if len(problems) >= 3:
+                    break  # the row is void anyway; do not enumerate a possibly exploding execution space
     except Exception as e:
         problems.append({"kind": "EXPLORER", "what": "%s: %s" % (type(e).__name__, e), "choices": [], "prob": 0.0,
                          "tb": traceback.format_exc()[-1500:]})
